@@ -105,6 +105,18 @@ spec fn sparse_lookup(n: &NFA, s: StateID, byte: u8) -> StateID {
     chain_lookup(n, n.states@[s.0 as int].sparse.0 as int, byte, n.sparse@.len())
 }
 
+// the match list of a state: the chain through `matches` from `State::matches` (0 terminates)
+spec fn match_chain(n: &NFA, link: int, fuel: nat) -> Seq<PatternID>
+    decreases fuel
+{
+    if fuel == 0 || link <= 0 || link >= n.matches@.len() { Seq::empty() }
+    else { seq![n.matches@[link].pid] + match_chain(n, n.matches@[link].link.0 as int, (fuel - 1) as nat) }
+}
+
+spec fn state_matches(n: &NFA, s: StateID) -> Seq<PatternID> {
+    match_chain(n, n.states@[s.0 as int].matches.0 as int, n.matches@.len())
+}
+
 // ghost potential: strictly decreasing along the failure link of every state that can fail
 uninterp spec fn rank(n: &NFA, s: StateID) -> nat;
 
@@ -129,11 +141,35 @@ spec fn nnfa_wf(n: &NFA) -> bool {
             &&& valid_sid(n, n.states@[s.0 as int].fail)
             &&& rank(n, n.states@[s.0 as int].fail) < rank(n, s)
         }
+    // chains are sorted strictly by byte (hence acyclic); match links point forward; listed ids valid
+    // (the hypotheses of the Kani harnesses of group nnfa_leaf)
+    &&& forall|i: int| 1 <= i < n.sparse@.len() && (#[trigger] n.sparse@[i]).link.0 != 0 ==> {
+            &&& n.sparse@[i].link.0 < n.sparse@.len()
+            &&& n.sparse@[n.sparse@[i].link.0 as int].byte > n.sparse@[i].byte
+        }
+    &&& forall|i: int| 1 <= i < n.matches@.len() ==> {
+            &&& (#[trigger] n.matches@[i]).link.0 == 0 || i < n.matches@[i].link.0 < n.matches@.len()
+            &&& n.matches@[i].pid.0 < n.pattern_lens@.len()
+        }
+    // match states (ids 2 ..= max_match_id) have a non-empty match list
+    &&& forall|s: StateID| #[trigger] valid_sid(n, s) && 0 < s.0 <= n.special.max_match_id.0 ==> state_matches(n, s).len() >= 1
     // the dead state (id 0) is absorbing
     &&& forall|b: u8| (#[trigger] sparse_lookup(n, StateID(0), b)).0 == 0
     &&& valid_sid(n, n.special.start_unanchored_id) && valid_sid(n, n.special.start_anchored_id)
     &&& n.special.start_unanchored_id.0 != 0 && n.special.start_anchored_id.0 != 0
     &&& n.special.max_match_id.0 <= n.special.max_special_id.0
+}
+
+// C16 "listed pattern ids are valid": every element of a match chain is a pattern id
+proof fn lemma_chain_pids_valid(n: &NFA, link: int, fuel: nat, k: int)
+    requires nnfa_wf(n), 0 <= k < match_chain(n, link, fuel).len(),
+    ensures match_chain(n, link, fuel)[k].0 < n.pattern_lens@.len(),
+    decreases fuel
+{
+    if fuel == 0 || link <= 0 || link >= n.matches@.len() {
+    } else if k > 0 {
+        lemma_chain_pids_valid(n, n.matches@[link].link.0 as int, (fuel - 1) as nat, k - 1);
+    }
 }
 
 // the transition function with failure links (what `next_state` computes)
@@ -162,6 +198,20 @@ impl NFA {
 fn follow_transition_sparse(&self, sid: StateID, byte: u8) -> (r: StateID)
     requires nnfa_wf(self), valid_sid(self, sid),
     ensures r == sparse_lookup(self, sid, byte),
+{ unimplemented!() }
+
+// trusted: `self.iter_matches(sid).count()` / `.nth(index).unwrap()` over a from_fn closure;
+// checked by Kani group nnfa_leaf (bounded)
+#[verifier::external_body]
+fn match_len(&self, sid: StateID) -> (r: usize)
+    requires nnfa_wf(self), valid_sid(self, sid),
+    ensures r == state_matches(self, sid).len(),
+{ unimplemented!() }
+
+#[verifier::external_body]
+fn match_pattern(&self, sid: StateID, index: usize) -> (r: PatternID)
+    requires nnfa_wf(self), valid_sid(self, sid), index < state_matches(self, sid).len(),
+    ensures r == state_matches(self, sid)[index as int],
 { unimplemented!() }
 
 // R-idx: `self.states[sid]` -> `self.states[sid.as_usize()]` (body of `Index<StateID> for Vec<T>`)
